@@ -981,14 +981,18 @@ class SgzReader(object):
 
         header = self.segy_traceheader_template.copy()
 
+        # Header words which duplicate another one share its stored array: read each stored value once
+        words = {}
         for k, v in header.items():
             if isinstance(v, FileOffset):
                 if load_all_headers or not self.structured:
                     self._load_variant_headers(False)
                     header[k] = self.variant_headers[k][index]
                 else:
-                    buf = self.file.read_range(self.file, v + 4*index, 4)  # A 32-bit int is 4 bytes
-                    header[k] = np.frombuffer(buf, dtype=np.int32)[0]
+                    if v not in words:
+                        buf = self.file.read_range(self.file, v + 4*index, 4)  # A 32-bit int is 4 bytes
+                        words[v] = np.frombuffer(buf, dtype=np.int32)[0]
+                    header[k] = words[v]
         return header
 
     def get_file_binary_header(self):
